@@ -144,6 +144,11 @@ class Server(object):
         if pid == 0:
             try:
                 os.close(r)
+                try:
+                    import ctypes
+                    ctypes.CDLL('libc.so.6', use_errno=True).prctl(1, signal.SIGKILL)   # PR_SET_PDEATHSIG: never outlive the worker
+                except Exception:
+                    pass
                 devnull = os.open(os.devnull, os.O_RDWR)
                 os.dup2(devnull, 0)
                 os.dup2(devnull, 1)
